@@ -397,6 +397,10 @@ func runUnguardedRules(p *Program, id string) ([]*Gen, []string) {
 							}
 						}
 					}
+					if o.Pre == "sat" && kv["scenario"] != "" {
+						o.ReplayTemplate = kv["scenario"]
+						o.ReplayPkgDir = strings.TrimPrefix(strings.TrimPrefix(d.Pkg, modPath), "/")
+					}
 					g.Obligs = append(g.Obligs, o)
 				}
 			}
